@@ -1172,3 +1172,5 @@ COQ_PROPS = (list(COQ_PROPS) if isinstance(COQ_PROPS, (list, tuple)) else [COQ_P
 THEOREMS = list(THEOREMS) + ['C10_gate_ext_partial', 'C10_gate_ext_refuted', 'C10_gates_accept_valid', 'C10_valid_iff_rules']
 if globals().get('TABLES'): TABLES = sorted(set(list(TABLES) + _link.TABLES))
 PARTS = list(PARTS) + [_link.LinkPart]
+
+THEOREMS = list(THEOREMS) + ['C10_prune_abstracts']
